@@ -228,6 +228,16 @@ def _run_case(ctx, case):
                 wantr = g.region(x0, x1, y0, y1)
                 ctx.judge(got == wantr, case, ("C04", "read", repr(want), x0, x1, y0, y1),
                           "C04:read-back", _show(wantr), _show(got), [x0, x1, y0, y1])
+                # the same columns named from the right edge or with a bound left out (columns
+                # count across the array's width, whatever length the rows are stored at)
+                c0 = rr.choice([y0] + ([y0 - w] if 0 < y0 < w else []) + ([None] if y0 == 0 else []))
+                c1 = rr.choice([y1] + ([y1 - w] if y1 < w else []) + ([None] if y1 == w else []))
+                if (c0, c1) != (y0, y1):
+                    got = [obs.cells(p) for p in a[x0:x1, c0:c1]]
+                    got = [p + [BLANK] * ((y1 - y0) - len(p)) for p in got]
+                    ctx.judge(got == wantr, case, ("C04", "read", repr(want), x0, x1, c0, c1),
+                              "C04:read-back-columns-named-otherwise", _show(wantr), _show(got), [x0, x1, c0, c1])
+                    ctx.count("reads_with_negative_or_open_column_bounds")
             except obs.ObservationFailed:
                 raise
             except Exception as ex:  # noqa
